@@ -9,6 +9,7 @@
 package main
 
 import (
+	"encoding/json"
 	"bytes"
 	"fmt"
 	"os"
@@ -99,7 +100,39 @@ func main() {
 	sc.Write("go.race.mod", []byte(race))
 	sum, _ := os.ReadFile(sc.Path("go.sum"))
 	sc.Write("go.race.sum", sum)
-	sc.BuildChecked(r, "driver", "driver.bin")
+	// every file of ogen's runtime packages and of the regenerated package that imports "sync" gets the
+	// scheduler's shim instead, through a build overlay (the race build keeps the real package): a
+	// change that introduces a pool, a mutex or a once there becomes visible to the explorer as
+	// scheduling points (a seeded pooled query encoder was seen by the race pass only)
+	overlay := map[string]string{}
+	shimmed := []string{}
+	syncImport := regexp.MustCompile(`(?m)^(\s*)(import\s+)?"sync"\s*$`)
+	roots := []string{sc.Path("api")}
+	for _, d := range []string{"uri", "http", "json", "validate", "ogenerrors", "middleware", "conv", "ogenregex", "otelogen", "internal"} {
+		roots = append(roots, filepath.Join(r.Repo, d))
+	}
+	for _, root := range roots {
+		_ = filepath.Walk(root, func(p string, info os.FileInfo, err error) error {
+			if err != nil || info.IsDir() || !strings.HasSuffix(p, ".go") || strings.HasSuffix(p, "_test.go") {
+				return nil
+			}
+			b, err := os.ReadFile(p)
+			if err != nil || !syncImport.Match(b) {
+				return nil
+			}
+			nb := syncImport.ReplaceAll(b, []byte("${1}${2}sync \"verifsched\""))
+			dst := fmt.Sprintf("shim/f%d.go", len(overlay))
+			sc.Write(dst, nb)
+			overlay[p] = sc.Path(dst)
+			rel, _ := filepath.Rel(r.Repo, p)
+			shimmed = append(shimmed, rel)
+			return nil
+		})
+	}
+	ob, _ := json.Marshal(map[string]any{"Replace": overlay})
+	sc.Write("sync-overlay.json", ob)
+	r.Set("files_whose_sync_import_is_the_scheduler_shim", append([]string{"github.com/go-faster/jx/jx.go", "github.com/dlclark/regexp2/regexp.go"}, shimmed...))
+	sc.BuildChecked(r, "driver", "driver.bin", "-overlay="+sc.Path("sync-overlay.json"))
 	// ----- exhaustive exploration, sharded over processes
 	shards := 16
 	var wg sync.WaitGroup
